@@ -76,6 +76,7 @@ def cases(draw):
             op['size'] = draw(st.sampled_from([0, 1, 5, 16, 17, 48]))
             op['chunk'] = draw(st.sampled_from([1, 7, 16, 128000]))
             op['wrapped'] = draw(st.booleans())
+            op['limit'] = draw(st.sampled_from([10 ** 9, 10 ** 9, 16, 5, 100]))
         if k == 'download_stream':
             op['chunk'] = draw(st.sampled_from([1, 7, 128000]))
         if k == 'list':
@@ -176,7 +177,9 @@ def run_case(case):
                     data = r.randbytes(op['size'])
                     stream = io.BytesIO(data)
                     if op['wrapped']:
-                        limited = utils.RateLimitedIO(10 ** 9).wrap(stream)
+                        limited = utils.RateLimitedIO(op.get('limit', 10 ** 9)).wrap(stream)
+                        if op.get('limit', 10 ** 9) < len(data):
+                            classes.append('rate-limit-below-payload')
                         stream = utils.TQDMIOReader(limited, desc='x', total=len(data), position=0, disable=True)
                         classes.append('wrapped-stream')
                     await backend.upload_stream(nm, stream, len(data), op['chunk'])
@@ -192,9 +195,17 @@ def run_case(case):
             except Exception:
                 errors += 1
         await backend.close()
+    import types
+    real_time = utils.time
+    vclock = {'t': 0.0}
+
+    def _sleep(sec):
+        vclock['t'] += max(sec, 0)
+    utils.time = types.SimpleNamespace(perf_counter=lambda: vclock['t'], sleep=_sleep)      # the limiter must not really wait
     try:
         asyncio.run(go())
     finally:
+        utils.time = real_time
         _Clock.now = None
     if len(days) > 1:
         classes.append('crosses-utc-midnight')
